@@ -242,12 +242,21 @@ class NodeExpandedDiGraph(nx.DiGraph):
         """
         return self._edges_to_ignore
     
+    def _check_additional_nodes(self, nodes, what):
+        # get_expanded_edge also accepts an edge of the original graph, which is not a start / end node
+        for node in nodes:
+            if not isinstance(node, str) or node not in self.original_G.nodes:
+                utils.logger.error(f"{__name__}: {what} must be nodes of the graph, not {node}")
+                raise ValueError(f"{what} must be nodes of the graph, not {node}")
+
     def get_expanded_additional_starts(self, additional_starts):
         
+        self._check_additional_nodes(additional_starts, "additional_starts")
         return [self.get_expanded_edge(node)[0] for node in additional_starts]
     
     def get_expanded_additional_ends(self, additional_ends):
         
+        self._check_additional_nodes(additional_ends, "additional_ends")
         return [self.get_expanded_edge(node)[1] for node in additional_ends]
     
     def get_expanded_subpath_constraints(self, subpath_constraints):
